@@ -43,13 +43,19 @@ Inductive op :=
 | MkDetE (s l : nat) | MkDetD (s : nat) | MkDetI (s i : nat)
 | IsTripped (s : nat)
 | WriteData (d : nat) (v : Z) | ReadData (d : nat)
-| PollRead (s d : nat).   (* if (det[s].isTripped()) return data[d].read(); else return -1; *)
+| PollRead (s d : nat)    (* if (det[s].isTripped()) return data[d].read(); else return -1; *)
+| ReleaseLine (l : nat)   (* the harness drops its own reference to explicit line l; the line lives on in the
+                             triggers / detectors that hold it; later Make operations on it are refused *)
+(* detectors in a table shared by all threads: created by one thread, polled by any *)
+| MkSDetE (s l : nat) | MkSDetD (s : nat) | MkSDetI (s i : nat)
+| SIsTripped (s : nat) | SPollRead (s d : nat).
 
 Definition opcode (o : op) : Z :=
   match o with
   | MkTrigE _ _ => 0 | MkTrigD _ => 1 | MkTrigI _ _ => 2 | MoveCtor _ _ => 3 | MoveAssign _ _ => 4
   | Destroy _ => 5 | MkDetE _ _ => 6 | MkDetD _ => 7 | MkDetI _ _ => 8 | IsTripped _ => 9
-  | WriteData _ _ => 10 | ReadData _ => 11 | PollRead _ _ => 12
+  | WriteData _ _ => 10 | ReadData _ => 11 | PollRead _ _ => 12 | ReleaseLine _ => 13
+  | MkSDetE _ _ => 14 | MkSDetD _ => 15 | MkSDetI _ _ => 16 | SIsTripped _ => 17 | SPollRead _ _ => 18
   end.
 
 Definition nn (z : Z) : bool := 0 <=? z.
@@ -68,6 +74,12 @@ Definition decode_op (z : list Z) : option op :=
   | [10; d; v] => if nn d then Some (WriteData (Z.to_nat d) v) else None
   | [11; d] => if nn d then Some (ReadData (Z.to_nat d)) else None
   | [12; s; d] => if nn s && nn d then Some (PollRead (Z.to_nat s) (Z.to_nat d)) else None
+  | [13; l] => if nn l then Some (ReleaseLine (Z.to_nat l)) else None
+  | [14; s; l] => if nn s && nn l then Some (MkSDetE (Z.to_nat s) (Z.to_nat l)) else None
+  | [15; s] => if nn s then Some (MkSDetD (Z.to_nat s)) else None
+  | [16; s; i] => if nn s && nn i then Some (MkSDetI (Z.to_nat s) (Z.to_nat i)) else None
+  | [17; s] => if nn s then Some (SIsTripped (Z.to_nat s)) else None
+  | [18; s; d] => if nn s && nn d then Some (SPollRead (Z.to_nat s) (Z.to_nat d)) else None
   | _ => None
   end.
 
@@ -93,7 +105,9 @@ Record glob := Glob {
   destroyed : nat -> nat;         (* ghost: per line, destructions of a trigger attached to it *)
   gnull : bool;                   (* fault: null shared_ptr dereferenced *)
   gwin : bool;                    (* fault: overlapping access windows on a datum *)
-  grace : nat -> bool }.          (* fault, per datum: data race (vector clocks) *)
+  grace : nat -> bool;            (* fault, per datum: data race (vector clocks) *)
+  released : nat -> bool;         (* explicit line l: the harness has dropped its reference *)
+  sdet : nat -> option nat }.     (* shared detector table: slot -> line *)
 
 Definition faulted (nd : nat) (g : glob) : bool := gnull g || gwin g || existsb (grace g) (seq 0 nd).
 
@@ -108,7 +122,7 @@ Definition do_store (P : params) (t l : nat) (g : glob) : glob :=
   let c := clk g t in
   let h := hs g l in
   Glob (fupd (hs g) l (store_msg (st_mo P) t c 1 :: h)) (fupd (clk g) t (vinc c t))
-       (fupd (seen g) t (fupd (seen g t) l (Nat.max (seen g t l) (S (length h))))) (cells g) (destroyed g) (gnull g) (gwin g) (grace g).
+       (fupd (seen g) t (fupd (seen g t) l (Nat.max (seen g t l) (S (length h))))) (cells g) (destroyed g) (gnull g) (gwin g) (grace g) (released g) (sdet g).
 
 Definition load_idx (P : params) (t ch l : nat) (g : glob) : nat :=
   pick (views P) (hs g l) (clk g t) (seen g t l) ch.
@@ -119,11 +133,11 @@ Definition do_load (P : params) (t ch l : nat) (g : glob) : glob :=
   let h := hs g l in
   Glob (hs g) (fupd (clk g) t (read_clock (ld_mo P) h i (clk g t)))
        (fupd (seen g) t (fupd (seen g t) l (Nat.max (seen g t l) (read_stamp h i))))
-       (cells g) (destroyed g) (gnull g) (gwin g) (grace g).
+       (cells g) (destroyed g) (gnull g) (gwin g) (grace g) (released g) (sdet g).
 
 Definition set_cell (g : glob) (d : nat) (x : cell) (win race : bool) : glob :=
   Glob (hs g) (clk g) (seen g) (fupd (cells g) d x) (destroyed g) (gnull g) (gwin g || win)
-       (fupd (grace g) d (grace g d || race)).
+       (fupd (grace g) d (grace g d || race)) (released g) (sdet g).
 
 (* vs::VPay::write / read, first half: overlap check (faults 1, 3 / 2), FastTrack check *)
 Definition wbeg_faults (x : cell) (d : nat) : list ev :=
@@ -148,9 +162,15 @@ Definition do_rend (d : nat) (g : glob) : glob * list ev :=
    fs ++ [E K_RD_END (dobj d) (cval x)]).
 
 Definition bump_destroyed (g : glob) (l : nat) : glob :=
-  Glob (hs g) (clk g) (seen g) (cells g) (fupd (destroyed g) l (S (destroyed g l))) (gnull g) (gwin g) (grace g).
+  Glob (hs g) (clk g) (seen g) (cells g) (fupd (destroyed g) l (S (destroyed g l))) (gnull g) (gwin g) (grace g) (released g) (sdet g).
 Definition set_null (g : glob) : glob :=
-  Glob (hs g) (clk g) (seen g) (cells g) (destroyed g) true (gwin g) (grace g).
+  Glob (hs g) (clk g) (seen g) (cells g) (destroyed g) true (gwin g) (grace g) (released g) (sdet g).
+Definition set_released (g : glob) (l : nat) : glob :=
+  Glob (hs g) (clk g) (seen g) (cells g) (destroyed g) (gnull g) (gwin g) (grace g) (fupd (released g) l true) (sdet g).
+Definition set_sdet (g : glob) (s l : nat) : glob :=
+  Glob (hs g) (clk g) (seen g) (cells g) (destroyed g) (gnull g) (gwin g) (grace g) (released g) (fupd (sdet g) s (Some l)).
+(* may a new trigger / detector be attached to explicit line l? *)
+Definition exp_ok (P : params) (g : glob) (l : nat) : bool := (l <? nexp P)%nat && negb (released g l).
 
 (* ---------- the invoke step of every operation ---------- *)
 (* An operation the harness refuses (occupied / empty slot, line or datum number out of
@@ -166,7 +186,7 @@ Definition dispatch (P : params) (g : glob) (lc : loc) (o : op) (r : list op) : 
   match o with
   | MkTrigE s l =>
     match T s with
-    | None => if (l <? nexp P)%nat then done (fupd T s (Some (Some (line_exp P l)))) D 0 else bad
+    | None => if exp_ok P g l then done (fupd T s (Some (Some (line_exp P l)))) D 0 else bad
     | Some _ => bad
     end
   | MkTrigD s =>
@@ -199,7 +219,7 @@ Definition dispatch (P : params) (g : glob) (lc : loc) (o : op) (r : list op) : 
     end
   | MkDetE s l =>
     match D s with
-    | None => if (l <? nexp P)%nat then done T (fupd D s (Some (line_exp P l))) 0 else bad
+    | None => if exp_ok P g l then done T (fupd D s (Some (line_exp P l))) 0 else bad
     | Some _ => bad
     end
   | MkDetD s =>
@@ -215,6 +235,30 @@ Definition dispatch (P : params) (g : glob) (lc : loc) (o : op) (r : list op) : 
   | ReadData d => if (d <? ndata P)%nat then go (P_rbeg d) else bad
   | PollRead s d =>
     match D s with
+    | Some l => if (d <? ndata P)%nat then go (P_load l (Some d)) else bad
+    | None => bad
+    end
+  | ReleaseLine l =>
+    if exp_ok P g l then (set_released g l, Loc r Idle T D, [inv_ev o; ret 0]) else bad
+  | MkSDetE s l =>
+    match sdet g s with
+    | None => if exp_ok P g l then (set_sdet g s (line_exp P l), Loc r Idle T D, [inv_ev o; ret 0]) else bad
+    | Some _ => bad
+    end
+  | MkSDetD s =>
+    match sdet g s with
+    | None => (set_sdet g s line_decl, Loc r Idle T D, [inv_ev o; ret 0])
+    | Some _ => bad
+    end
+  | MkSDetI s i =>
+    match sdet g s with
+    | None => if (i <? nidx P)%nat then (set_sdet g s (line_idx i), Loc r Idle T D, [inv_ev o; ret 0]) else thrown
+    | Some _ => bad
+    end
+  | SIsTripped s =>
+    match sdet g s with Some l => go (P_load l None) | None => bad end
+  | SPollRead s d =>
+    match sdet g s with
     | Some l => if (d <? ndata P)%nat then go (P_load l (Some d)) else bad
     | None => bad
     end
@@ -249,7 +293,7 @@ Definition fin (l : loc) : bool := match at_ l, prog l with Idle, [] => true | _
 
 Definition cell0 : cell := Cell 0 0 false ft0.
 Definition glob0 : glob :=
-  Glob (fun _ => []) clk0 (fun _ _ => 0%nat) (fun _ => cell0) (fun _ => 0%nat) false false (fun _ => false).
+  Glob (fun _ => []) clk0 (fun _ _ => 0%nat) (fun _ => cell0) (fun _ => 0%nat) false false (fun _ => false) (fun _ => false) (fun _ => None).
 Definition loc0 (p : list op) : loc := Loc p Idle (fun _ => None) (fun _ => None).
 Definition init (progs : list (list op)) : sys glob loc := Sys glob0 (map loc0 progs).
 
@@ -265,7 +309,8 @@ Fixpoint decode_prog (p : list (list Z)) : list op :=
   end.
 
 Definition final (P : params) (s : sys glob loc) : list line :=
-  [ (-2) :: map (fun l => read_val 0 (hs (gl s) l) 0) (seq 0 (nlines P));
+  [ (-2) :: map (fun l => if (nidx P <? l)%nat && released (gl s) (l - S (nidx P)) then -1 else read_val 0 (hs (gl s) l) 0)
+                (seq 0 (nlines P));
     (-2) :: map (fun d => cval (cells (gl s) d)) (seq 0 (ndata P)) ].
 
 Definition run_case (cfg : list Z) (progs : list (list (list Z))) (sched : list (Z * Z)) : list line :=
